@@ -125,3 +125,20 @@ func sliceLoops() *slice {
 	return &slice{name: "loops", g: NewGrammar(rules), tops: []NT{nt(TBool), nt(TInt), nt(TIntArr)}, modes: lib.AllModes,
 		maxN: map[string]int{"quick": 7, "thorough": 8}}
 }
+
+// alloc: allocating constructs only, with run-time bounds so that nothing is folded at compile time.
+func sliceAlloc() *slice {
+	rules := []*Rule{
+		Var("I", TInt), Var("J", TInt), Hash(TInt),
+		Bin("..", TInt, TInt, TIntArr),
+		Arr(TInt), Arr(TInt, TInt), Arr(TInt, TInt, TInt), Arr(TIntArr), Arr(TIntArr, TIntArr), Arr(TAnyArr), Arr(TAnyMap, TInt), Arr(),
+		MapLit([]string{"a"}, TInt), MapLit([]string{"a", "b"}, TIntArr, TInt), MapLit([]string{"a", "b", "c"}, TInt, TInt, TAnyArr), MapLit([]string{"a"}, TAnyArr),
+		Builtin("map", TIntArr, TInt, TIntArr), Builtin("filter", TIntArr, TBool, TIntArr), Builtin("map", TIntArr, TAnyArr, TAnyArr), Builtin("map", TIntArr, TIntArr, TAnyArr),
+		Builtin("count", TIntArr, TBool, TInt), Builtin("all", TIntArr, TBool, TBool),
+		Len(TIntArr), Len(TAnyArr), Len(TAnyMap),
+		Bin(">", TInt, TInt, TBool), Bin("+", TInt, TInt, TInt),
+	}
+	return &slice{name: "alloc", g: NewGrammar(rules), tops: []NT{nt(TIntArr), nt(TAnyArr), nt(TAnyMap), nt(TInt), nt(TBool)},
+		modes: []lib.Mode{{Env: "struct", Opt: true}, {Env: "struct", Opt: false}, {Env: "noenv", Opt: true}},
+		maxN:  map[string]int{"quick": 6, "thorough": 8}}
+}
